@@ -208,16 +208,9 @@ func (e *Engine) findDFA(haystack []byte) *Match {
 		return nil
 	}
 
-	// DFA found match ending at endPos - use reverse search to find start
-	// This is O(m) where m = match length, not O(n)
-	// For patterns without prefilter, estimate start position
-	// and search from there
-	estimatedStart := 0
-	if endPos > 100 {
-		// For long haystacks, start search closer to the match end
-		estimatedStart = endPos - 100
-	}
-	start, end, matched := e.pikeSearchAt(haystack, estimatedStart)
+	// DFA found a match: the NFA reports its exact bounds. The search starts at
+	// the beginning: a match can be arbitrarily long, so no later start is safe.
+	start, end, matched := e.pikeSearchAt(haystack, 0)
 	if !matched {
 		return nil
 	}
@@ -272,13 +265,9 @@ func (e *Engine) findAdaptive(haystack []byte) *Match {
 		endPos := e.dfa.Find(state.dfaCache, haystack)
 		if endPos != -1 {
 			e.putSearchState(state)
-			// DFA succeeded - get exact match bounds from NFA
-			// Use estimated start position for O(m) search instead of O(n)
-			estimatedStart := 0
-			if endPos > 100 {
-				estimatedStart = endPos - 100
-			}
-			start, end, matched := e.pikeSearchAt(haystack, estimatedStart)
+			// DFA succeeded - get exact match bounds from NFA (from the beginning:
+			// a match can be arbitrarily long, so no later start is safe)
+			start, end, matched := e.pikeSearchAt(haystack, 0)
 			if !matched {
 				return nil
 			}
